@@ -1,0 +1,6 @@
+//go:build !verif
+
+package zenodb
+
+// verifEvent is a verification hook. Without the "verif" build tag it is a no-op.
+func verifEvent(name string, table string, args ...interface{}) {}
